@@ -211,7 +211,9 @@ def judgeC19 : P Verdict := do
             return .propfail s!"[C19] DOT: edge {p}->{nd.idx} carries the wrong label (expected {label})"
         | none => pure ()
       let nEdges := (lines.filter (fun l => (l.splitOn " -> ").length == 2)).length
-      if nEdges != nodes.length - 1 then return .propfail s!"[C19] DOT: {nEdges} edge statements for {nodes.length - 1} edges"
+      -- one edge per node that has a parent (a re-rooted arena holds more than one component)
+      let wantEdges := (nodes.filter (fun nd => nd.parent.isSome)).length
+      if nEdges != wantEdges then return .propfail s!"[C19] DOT: {nEdges} edge statements for {wantEdges} edges"
     else
       -- Display: the `children:` line of every node lists exactly its occupied slots as `label->index`
       let lines := s.splitOn "\n"
